@@ -5,28 +5,12 @@ from core import Unit as U
 # trace equality only.  slice_formula drops all arithmetic that cannot reach a branch condition.
 NOCHK = ["--no-bounds-check", "--no-pointer-check", "--no-signed-overflow-check", "--no-undefined-shift-check",
          "--no-div-by-zero-check"]
-# LOCAL WORKAROUND (reported to the lead): core.cbmc_cmd hard-codes --object-bits 12; the whole-multiplier
-# units create > 4096 objects (every activation of fe_mul_inner has two address-taken int128 locals), and
-# cbmc honours only the FIRST --object-bits on its command line.  Units may carry an `object_bits` attribute.
-import core as _core
-if not getattr(_core, "_c06_object_bits_patch", False):
-    _orig_cbmc_cmd = _core.cbmc_cmd
-    def _cbmc_cmd(u, extra=()):
-        cmd = _orig_cbmc_cmd(u, extra)
-        ob = getattr(u, "object_bits", None)
-        if ob and "--object-bits" in cmd:
-            cmd[cmd.index("--object-bits") + 1] = str(ob)
-        return cmd
-    _core.cbmc_cmd = _cbmc_cmd
-    _core._c06_object_bits_patch = True
 def CT(name, harness, entry, functions, object_bits=None, **kw):
     kw.setdefault("timeout", 600)
     kw.setdefault("slice_formula", True)
     kw.setdefault("flags", NOCHK)
     kw.setdefault("min_obl", 2)
-    u = U("C06." + name, ["C06"], "harness/C06/" + harness, entry, branch=True, functions=functions, **kw)
-    u.object_bits = object_bits
-    return u
+    return U("C06." + name, ["C06"], "harness/C06/" + harness, entry, branch=True, functions=functions, object_bits=object_bits, **kw)
 LEN = dict(unwind=194, closed_by="public len <= 192 fully unwound, unwinding assertions prove the bound (all call sites in src/ pass constants <= 162)")
 SCALAR_BASIC = ["secp256k1_scalar_" + f for f in "cmov cond_negate negate add cadd_bit half set_b32 set_b32_seckey get_b32 is_zero is_one is_even is_high eq check_overflow reduce get_bits_limb32 clear".split()]
 FE_BASIC = ["secp256k1_fe_" + f for f in "cmov storage_cmov normalize normalize_weak normalizes_to_zero negate add mul_int add_int half to_storage from_storage is_odd is_zero equal get_b32 set_b32_mod set_b32_limit clear".split()]
